@@ -54,6 +54,10 @@ type all struct {
 	In   inner    `xsel:"p"`
 	PIn  *inner   `xsel:"p"`
 	Ins  []inner  `xsel:"p"`
+	Big  uint64   `xsel:"10000000000000000000"`
+	Big2 uint     `xsel:"18446744073709549568"`
+	PBig *uint64  `xsel:"9223372036854775808"`
+	Min  int64    `xsel:"-9223372036854775808"`
 	Cnt  float64  `xsel:"count(n)"`
 	Str  string   `xsel:"string(@t)"`
 	Keep string
@@ -280,6 +284,14 @@ func main() {
 		type unexported struct {
 			v string `xsel:"s"`
 		}
+		type unexportedStruct struct {
+			in inner `xsel:"p"`
+		}
+		type unexportedPtr struct {
+			in *inner `xsel:"p"`
+		}
+		var nilInnerSlice *[]string
+		var nilMid **struct{}
 		type withMap struct {
 			M map[string]int `xsel:"s"`
 		}
@@ -317,6 +329,10 @@ func main() {
 			{"multi-dimensional slice, empty node-set", func() error { return xsel.Unmarshal(empty, &multi) }},
 			{"interface holding nil", func() error { return xsel.Unmarshal(root, &iface) }},
 			{"unexported tagged field", func() error { return xsel.Unmarshal(root, &unexported{}) }},
+			{"unexported tagged struct field", func() error { return xsel.Unmarshal(root, &unexportedStruct{}) }},
+			{"unexported tagged pointer field", func() error { return xsel.Unmarshal(root, &unexportedPtr{}) }},
+			{"pointer to a nil pointer to a slice", func() error { return xsel.Unmarshal(ns, &nilInnerSlice) }},
+			{"pointer chain with a nil middle pointer", func() error { return xsel.Unmarshal(root, &nilMid) }},
 			{"map field", func() error { return xsel.Unmarshal(root, &withMap{}) }},
 			{"array field", func() error { return xsel.Unmarshal(root, &withArr{}) }},
 			{"multi-dimensional slice field", func() error { return xsel.Unmarshal(root, &withMulti{}) }},
@@ -344,6 +360,36 @@ func main() {
 			}
 		}
 	}
+	// 3b. two different types that print the same name, one after the other (no state may be shared between calls)
+	{
+		cur, _ := xsel.ReadXml(strings.NewReader(doc1))
+		root := mustNodes(cur, "/r")
+		first := func() (string, error) {
+			type Record struct {
+				A string `xsel:"s"`
+			}
+			var r Record
+			err := xsel.Unmarshal(root, &r)
+			return r.A, err
+		}
+		second := func() (string, string, error) {
+			type Record struct {
+				X string `xsel:"@a"`
+				Y string `xsel:"f"`
+			}
+			var r Record
+			err := xsel.Unmarshal(root, &r)
+			return r.X, r.Y, err
+		}
+		cases++
+		var a, x, y string
+		var e1, e2 error
+		if _, p := safely("same-named types", func() error { a, e1 = first(); x, y, e2 = second(); return nil }); !p {
+			if e1 != nil || e2 != nil || a != "hello" || x != "7" || y != "1.5" {
+				failf("same-named types", "two local types named Record filled one after the other: got %q / %q %q (errors %v %v), want hello / 7 1.5", a, x, y, e1, e2)
+			}
+		}
+	}
 	// 4. self-referential type with a tag that does not descend: child process
 	type classInfo struct {
 		Count   int    `json:"count"`
@@ -368,11 +414,11 @@ func main() {
 	}
 	sum := map[string]interface{}{
 		"what":          "Unmarshal vs tag-by-tag evaluation with xsel.Exec; unsupported targets and wrong shapes must error without panic",
-		"bound":         "a fixed battery: 27-field struct (every supported kind, pointer depth 0-2, slices of scalars/pointers/structs, nested and pointer-to struct, untagged fields) through *T and **T, four slice targets, 23 unsupported targets or wrong shapes, on 2 documents; one self-referential type in a child process",
+		"bound":         "a fixed battery: 31-field struct (every supported kind, pointer depth 0-2, slices of scalars/pointers/structs, nested and pointer-to struct, untagged fields) through *T and **T, four slice targets, 23 unsupported targets or wrong shapes, on 2 documents; one self-referential type in a child process",
 		"cases":         cases,
 		"evaluations":   cases,
 		"distinct":      cases,
-		"samples":       []string{"Unmarshal(/r, &all{...27 tagged fields...}) on " + doc1, "Unmarshal(/r/n, &[]*float64{})", "Unmarshal(/r, nil) must be an error", "Unmarshal(/r/n, &[][]int{}) must be an error"},
+		"samples":       []string{"Unmarshal(/r, &all{...31 tagged fields...}) on " + doc1, "Unmarshal(/r/n, &[]*float64{})", "Unmarshal(/r, nil) must be an error", "Unmarshal(/r/n, &[][]int{}) must be an error"},
 		"known_classes": classes,
 		"failures":      fails,
 	}
